@@ -65,6 +65,49 @@ CHECKS = {
         note="Trusted: the monitor serializes calls with its own mutex, so 'after close' means 'acquired the monitor after close() did'; the copy-on-write set comes from harness/src/fmt.rs. The real FileBackend is not traced in the quick tier.",
         design="5/C20",
     ),
+
+    "C02": dict(
+        category="exploration",
+        technique="runtime monitoring: snapshot oracle re-consulting every live reader object (transactions, tables, owned guards and half-consumed owned iterators) after every later step of generated histories",
+        text="Up to 8 readers begun at different commits hold ReadTransactions, ReadOnlyTable/ReadOnlyMultimapTable handles, OwnedAccessGuards, half-consumed OwnedRange and OwnedMultimapValue iterators (the transaction handle often dropped first). After every later step -- commits of every durability and strategy, aborts, savepoint restores, page-freeing deletes, refused compact(), catalog changes -- each object is re-read in full and compared with the model snapshot taken when begin_read returned; cache sizes 0..1 GiB; finally the Database is dropped first and survivors must yield their snapshot or DatabaseClosed.",
+        note="Trusted: the reference model. Reader sets and histories are sampled; thread interleavings are C03's stress.",
+        design="5/C02",
+    ),
+    "C05": dict(
+        category="exploration",
+        technique="runtime monitoring: before/after state capture (contents, savepoints, savepoint validity, allocated-page set from the allocator snapshot hook) around abandoned, poisoned and I/O-failed transactions",
+        text="After an arbitrary prelude the full state is captured (contents, persistent savepoint ids, validity of every live Savepoint handle, stats().allocated_pages(), exact allocated page set); a transaction mixing table writes, catalog changes and savepoint operations is ended by abort, by drop, by a panicking retain/extract_if predicate followed by commit (must be TransactionPoisoned) or by a one-shot read failure inside rename/delete/restore (commit must fail, writes refused, state after reopen as before); the capture must be identical afterwards and the ownership accountant must balance.",
+        note="Trusted: the allocator snapshot hook H3 and the decoder; bodies and preludes are sampled.",
+        design="5/C05",
+    ),
+    "C06": dict(
+        category="exploration",
+        technique="runtime monitoring: ownership accountant (allocator bitmaps vs independently recomputed reachability and pending-free lists, pinned roots re-verified) after every step, plus the backend's copy-on-write write guard",
+        text="After every step of mixed and steady-churn histories the accountant requires exact equality between the allocated set and (pages reachable from the data root) + (from the system root) + (pending-free lists on disk and in memory), pairwise disjointness, every page of the last durable commit and of every live reader/savepoint root still allocated and checksum-intact, allocation records naming only allocated pages; at the end all pins are dropped and at most 3 empty durable commits must leave nothing pending free. The backend rejects writes into pages reachable from the last durable commit.",
+        note="Trusted: hooks H3/H4 (state snapshot, page reader), harness/src/fmt.rs. Order-0 granularity, quiescent points only; 'returns to its previous level' is restated as bounded progress.",
+        design="5/C06",
+    ),
+    "C07": dict(
+        category="exploration",
+        technique="runtime monitoring: reference-model oracle with allowed-outcome sets over savepoint-dense histories, ownership accountant after every step, crash-image oracle restoring every recovered persistent savepoint",
+        text="Histories dense in ephemeral/persistent savepoint creation, restore (valid, invalidated, durable and non-durable), deletion and drop; the model fixes the allowed outcome of every call; after a restore the transaction and, after commit, every reader must see exactly the captured contents; later savepoints must be refused; the accountant must balance after every step; for part of the cases every crash image must list exactly the savepoints of its commit point and restoring each yields its snapshot.",
+        note="Trusted: the reference model of savepoint semantics as documented in the API; crash model of C01; histories sampled.",
+        design="5/C07",
+    ),
+    "C11": dict(
+        category="exploration",
+        technique="runtime monitoring: ownership accountant immediately after every kind of open, repeated check_integrity, continued writing, and an independent decode of the allocator-state table stored in the closed file",
+        text="Up to 4 stop/open cycles per storage: clean close, crash right after a quick-repair commit, crash after ordinary commits following a quick-repair commit, crash with all writes applied, crash at a random position with a random subset of unsynced writes. After each open: exact allocator-vs-reachability equality, check_integrity x3 (with and without a pending non-durable commit) must be Ok(true) with unchanged contents, 2-10 more transactions with the accountant after each; after the final clean close the stored allocator-state table is decoded independently and compared with what the file needs.",
+        note="Trusted: hooks H3/H4, the decoder, the crash model. One random subset per random-position stop (C01 enumerates).",
+        design="5/C11",
+    ),
+    "C13": dict(
+        category="exploration",
+        technique="runtime monitoring: reference-model oracle, file-length monitor and transaction-id counter around compact(), refusal oracle, ownership accountant, crash-image oracle over the compaction's storage operations",
+        text="Fragmented multi-region databases (pending frees, pending non-durable commits, multimap subtrees, readers, savepoints): compact() with a reader or savepoint alive must return the matching error and change nothing; otherwise contents unchanged, file length at return not larger, transactions consumed <= 4*allocated+16, accountant balanced; for part of the cases each storage operation inside the compaction is a crash point recovering to the unchanged contents. One known finding (growth of an already packed database) is listed in known_findings.json.",
+        note="Trusted: the reference model; file length is measured at the backend when compact() returns; the pass bound is a generous logical bound.",
+        design="5/C13",
+    ),
 }
 
 REASONS_NOT_YET = "check not built yet in this revision of /verif (runtime-monitoring design exists in DESIGN.md section 5)"
